@@ -12,7 +12,7 @@ import ast
 import re
 
 from ..flow import FlowAnalysis, has_event, may_event
-from ..model import bind_args, AnalysisError, FuncInfo, call_name, last_attr, names_in, unparse, walk_no_nested
+from ..model import bind_args, AnalysisError, FuncInfo, call_name, dotted_name, last_attr, names_in, unparse, walk_no_nested
 from ..sites import pipeline_applies, site_writes, apply_fn, worker_fn
 
 # calls whose success depends on the content / existence of the target file
@@ -278,6 +278,48 @@ def rule_accumulate_all(ctx, rep, rule_id="R-ACCUMULATE-ALL"):
         raise AnalysisError(f"only {n} collection accumulators found on the execution / file context")
 
 
+def rule_iter_no_resume(ctx, rep, rule_id="R-ITER-NO-RESUME"):
+    """Shared by C03 / C10."""
+    rep.rule(
+        rule_id,
+        "no iterator is asked for another element after `next()` on it raised something other than StopIteration (`try: x = next(it)` / "
+        "`except SomeError: ...; continue` in a loop).  The iterators of the merge path are generators (`executor.map(...)`, generator "
+        "functions): a generator that has raised is finished, the following `next()` answers StopIteration, and the results of every remaining "
+        "file -- already rewritten on disk by their workers -- never reach the report",
+        min_instances=1,
+    )
+    n = 0
+    for fn in ctx.prog.live_functions():
+        if not fn.module.name.startswith(("codemodder.", "core_codemods.")):
+            continue
+        pm = None
+        for t in walk_no_nested(fn.node):
+            if not isinstance(t, ast.Try):
+                continue
+            nexts = [c for st in t.body for c in ast.walk(st) if isinstance(c, ast.Call) and call_name(c) == "next" and len(c.args) == 1]
+            if not nexts:
+                continue
+            n += 1
+            pm = pm or ctx.parents(fn)
+            cur, in_loop = pm.get(id(t)), False
+            while cur is not None and cur is not fn.node:
+                if isinstance(cur, (ast.While, ast.For)):
+                    in_loop = True
+                    break
+                cur = pm.get(id(cur))
+            bad = None
+            for h in t.handlers:
+                names = {(dotted_name(x) or "").split(".")[-1] for x in ([h.type] if h.type is not None and not isinstance(h.type, ast.Tuple) else (h.type.elts if h.type is not None else []))}
+                only_stop = names and names <= {"StopIteration", "StopAsyncIteration"}
+                leaves = any(isinstance(x, (ast.Break, ast.Return, ast.Raise)) for st in h.body[-1:] for x in [st])
+                if in_loop and not only_stop and not leaves:
+                    bad = h
+            rep.check(rule_id, fn.qname, fn.loc(bad if bad is not None else t), bad is None, f"next:{unparse(nexts[0].args[0])[:30]}",
+                      f"after `{unparse(nexts[0])[:40]}` raised, the handler carries on with the loop: a generator that raised is exhausted, the remaining elements are lost")
+    if n == 0:
+        rep.instance(rule_id, "codebase", "src/", True, detail="no `next()` under a handler inside a loop")
+
+
 def rule_failure_unfixed(ctx, rep):
     rep.rule(
         "R-FAILURE-UNFIXED",
@@ -310,7 +352,7 @@ def rule_failure_unfixed(ctx, rep):
         rep.check("R-FAILURE-UNFIXED", af.qname, af.loc(), ok, evn[3:], f"add_failure {msg} on every path")
 
     pr = ctx.prog.func("codemodder.context.CodemodExecutionContext.process_results")
-    loops = [n for n in walk_no_nested(pr.node) if isinstance(n, ast.For)]
+    loops = [n for n in walk_no_nested(pr.node) if isinstance(n, ast.For)] or [n for n in walk_no_nested(pr.node) if isinstance(n, ast.While)]
     if not loops:
         raise AnalysisError("process_results no longer loops over the file contexts")
     loop = loops[0]
@@ -440,6 +482,11 @@ def check(ctx, rep):
     )
     rule_fail_isolated(ctx, rep)
     rule_failure_unfixed(ctx, rep)
+    rule_iter_no_resume(ctx, rep)
+    from .c09 import rule_runwide_state
+
+    # `every other codemod exactly as it would have without the bad file`: what an earlier codemod recorded (its failed files) is not read while a later one runs
+    rule_runwide_state(ctx, rep)
     rule_accumulate_all(ctx, rep)
     rule_no_changeset_on_failure(ctx, rep)
     rule_worker_no_raise(ctx, rep)
